@@ -345,6 +345,8 @@ func runC12(c *core.Ctx) {
 			c.Ok("copier-iteration", name, w.Fn.Pos(), fmt.Sprintf("%d element paths: one cancellable send(out, x)", len(elem)))
 		}
 	}
+	c.Doc("worker-local-state", 1, "the copier closure, started once per input, stores to no variable shared between copiers")
+	workerLocalState(c, name, s, w)
 	stageLifecycleRules(c, s, lifecycleOpts{})
 }
 
